@@ -79,7 +79,7 @@ def _json_twice(mi, v):
 
 
 _OPT_DEFAULTS = {'b': None, 'c': 'red', 'd': 1.5, 'e': False, 's': 'dflt',
-                 'l': [], 't': None, 'u': 7}
+                 'l': [], 't': None, 'u': 7, 'm': None, 'n': None}
 
 
 def _same(a, b):
@@ -144,7 +144,7 @@ def _eq_ordered(a, b):
     return type(a) is type(b) and a == b
 
 
-_NO_PROJECTION = ('order', 'company', 'lamp')
+_NO_PROJECTION = ('order', 'company', 'company2', 'lamp')
 
 
 def _dump_ok(mi, f, x, f2=None, x2=None):
